@@ -19,6 +19,22 @@ open Opcua Opcua.Asym Opcua.Interop
 theorem C37_all : ∀ cfg ∈ configTable, connect cfg = .ok := by
   decide +kernel
 
+/-- DEPENDENCY C30 ↔ C37 (discovery): if the server admitted only the enabled
+    (policy, mode) pairs — the withdrawn C30 repair — every configuration whose
+    server does not enable None/None would fail at discovery, because
+    `opcua.GetEndpoints` needs an unsecured channel; only the policy-None rows
+    would still connect. -/
+theorem C37_enabled_only_breaks_discovery : ∀ cfg ∈ configTable,
+    connectWith .enabledOnly cfg = (if polIsNone cfg.pol then .ok else .discoveryRefused) := by
+  decide +kernel
+
+/-- … whereas admitting the enabled pairs PLUS the unsecured discovery channel
+    (Part 4 §5.4.1) keeps every configuration connecting: C30 can be repaired
+    that way without breaking C37. -/
+theorem C37_enabled_or_discovery_ok : ∀ cfg ∈ configTable,
+    connectWith .enabledOrDiscovery cfg = .ok := by
+  decide +kernel
+
 /-- the table has the expected size: 5 secured policies × 2 modes × (4 + 4 + 9 + 9 + 9
     key-size pairs) × 2 token types = 140, + 2 anonymous rows for policy None, + 26 rows
     username-over-the-None-endpoint (13 (secured policy, server key) pairs × client key absent / 2048) -/
